@@ -1303,6 +1303,12 @@ def mon_C10_me(case):
                     if theirs is None or theirs["deleted"] or not has(eff(theirs["want"], theirs["given"]), "P") \
                             or not has(eff(theirs["want"], theirs["given"]), "J"):
                         continue
+                    mx = ln.me.get(x)
+                    if mx is not None and mx["sess"] and not visible(x):
+                        # on `me`, but without presence permission on the own subscription to it (the user asked to be invisible, or
+                        # the account's default access lacks P): what the partners are told then depends on when they asked - the
+                        # property does not say what it should be: not judged
+                        continue
                     expect = visible(x)
                     got = m["contacts"].get(x, (False, False))[0]
                     if got != expect:
